@@ -93,6 +93,7 @@ type Config struct {
 	ConcretizeN int
 	MaxDecisions int
 	BatchMax     int
+	TimeBudget   time.Duration
 }
 
 type Result struct {
@@ -762,6 +763,10 @@ func (ex *Exec) Explore(fn *ssa.Function, prefix []Decision, rootAux []AuxRec, f
 		res.Instrs += ex.instrs
 		if len(res.Samples) < 8 && end != "infeasible" && end != "frontier" {
 			res.Samples = append(res.Samples, PathSample{Decisions: ex.decisionString(), End: end})
+		}
+		if ex.cfg.TimeBudget > 0 && time.Since(t0) > ex.cfg.TimeBudget {
+			res.Inconclusive = append(res.Inconclusive, fmt.Sprintf("time budget of %s for one exploration job exceeded after %d paths (exploration incomplete)", ex.cfg.TimeBudget, res.Paths))
+			break
 		}
 		if ex.cfg.MaxPaths > 0 && res.Paths >= ex.cfg.MaxPaths {
 			res.Inconclusive = append(res.Inconclusive, fmt.Sprintf("path budget %d reached", ex.cfg.MaxPaths))
